@@ -1388,6 +1388,23 @@ int fsync(int fd) {
 }
 int fdatasync(int fd) { return fsync(fd); }
 
+/* Signals sent by the program under simulation to its own children (fclones kills the transform probe):
+ * kind "kill", path "<child>".  A delay rule makes "the child got to run before the signal arrived"
+ * a decided event instead of a race. */
+int kill(pid_t pid, int sig) {
+    ensure_init();
+    if (in_seam) return (int)RAW(SYS_kill, pid, sig);
+    in_seam++;
+    struct ev e;
+    ev_begin(&e, "kill", 0, xstrdup("<child>"), NULL, 1);
+    int ret, err;
+    if (ev_fail(&e)) { ret = -1; err = errno; }
+    else { ret = (int)RAW(SYS_kill, pid, sig); err = errno; }
+    ev_end(&e, ret, err, NULL);
+    in_seam--;
+    return ret;
+}
+
 ssize_t copy_file_range(int in, off64_t *oin, int out, off64_t *oout, size_t len, unsigned fl) {
     ensure_init();
     if (in_seam) return RAW(SYS_copy_file_range, in, oin, out, oout, len, fl);
